@@ -1,7 +1,10 @@
 #!/bin/bash
 # tools/seed_run.sh <patch.diff> <ID> [<ID>...] : apply a seeded change to /repo, run the quick checks, undo
 P=$1; shift
+# evidence files must always describe the unchanged tree: keep them aside while a seeded change is applied
+rm -rf /verif/work/evidence_keep && cp -r /verif/evidence /verif/work/evidence_keep
 cd /repo || exit 2
 if ! git apply --check "$P" 2>/dev/null; then echo "patch does not apply cleanly, trying 3-way"; git apply -3 "$P" || exit 2; else git apply "$P"; fi
 for id in "$@"; do (cd /verif && VERIF_SEED=${VERIF_SEED:-0} ./run $id ${TIER:-quick} 2>&1 | grep -E "VIOLATION|violations|INCONCLUSIVE|KNOWN" | head -4; echo "  -> $id exit=${PIPESTATUS[0]}"); done
 git -C /repo checkout -- . ; git -C /repo status --short | head -3
+rm -rf /verif/evidence && mv /verif/work/evidence_keep /verif/evidence
